@@ -30,7 +30,10 @@ def knownRows : List (OpK × Kind × Cat) := [
   (.construct, .oneOf, .coll), (.construct, .oneOf, .inline), (.construct, .oneOf, .wrap),
   (.construct, .allOf, .coll), (.construct, .allOf, .inline), (.construct, .allOf, .wrap),
   (.setattr, .oneOf, .coll), (.setattr, .oneOf, .inline), (.setattr, .oneOf, .wrap),
-  (.setattr, .allOf, .coll), (.setattr, .allOf, .inline), (.setattr, .allOf, .wrap)]
+  (.setattr, .allOf, .coll), (.setattr, .allOf, .inline), (.setattr, .allOf, .wrap),
+  -- `AnyOf.serialize` hands every value to its last non-None option: a stored collection reaches `Boolean.serialize` /
+  -- `Enum.serialize`, which return whatever they are given — `<field>.serialize(x.f)` is the live collection
+  (.fieldSerialize, .misfit, .scalar), (.fieldSerialize, .misfit, .enum)]
 
 /-- rows that were findings of the first round and were repaired in typedpy: the `return value` short cuts
     of Array/Deque/Map.serialize (commit 5e8a8ad: fast serialization and `<field>.serialize` handed out the
